@@ -229,7 +229,7 @@ def placeholder(q):
     return (q[0] + "." if q[0] is not None else "") + q[1]
 
 
-def observe_compiled(reg, ident, q, prefix, suffix="()"):
+def observe_compiled(reg, ident, q, prefix, suffix="()", n_before=None):
     """Through the real TemplateCompiler.  The factory identity is taken from what get_tag_factory
     returned for the placeholder (first call), so later configuration errors do not matter."""
     text = prefix + "%" + placeholder(q) + suffix
@@ -242,7 +242,8 @@ def observe_compiled(reg, ident, q, prefix, suffix="()"):
         except Exception as e:
             return text, {"kind": "other", "detail": "%s: %s" % (type(e).__name__, e)}
     # skip resolutions that belong to tags of the prefix
-    n_before = prefix.count("%")
+    if n_before is None:
+        n_before = prefix.count("%")
     calls = spy.calls[n_before:]
     if not calls:
         return text, {"kind": "other", "detail": "placeholder never resolved: %r" % (err,)}
@@ -502,6 +503,53 @@ def spellings(rng, cat):
     return list(dict.fromkeys(out))
 
 
+ODD_NAMES = ["Größe", "Café", "Shot٣", "naïve", "Ünï", "x²", "Tıtle", "Å", "Ａｂ", "a-b", "3D", "_x", "x_1", "X", "a.b",
+             "Name​", "café_1", "Δelta", "аlias", "ſize", "Kelvin", "Line\n", "\nLine", "Tab\t", "sp ace", ""]
+
+
+def odd_user_names(chk, stats):
+    """A user-defined tag that the command line ACCEPTS (alias or ad-hoc executable) is shown by --list-tags and has to
+    be reachable as Category.Name and, when unique, by its bare name.  Names the template language cannot spell
+    (non-ASCII letters and digits, dashes, dots, a leading digit ...) must therefore be refused at definition time."""
+    with sandbox.Sandbox("verif-c12-odd-") as root:
+        os.makedirs(os.path.join(root, "in"))
+        os.makedirs(os.path.join(root, "bin"))
+        with open(os.path.join(root, "in", "a.txt"), "w") as fh:
+            fh.write("x")
+        out = {"refused_at_definition": 0, "reachable": 0}
+        for name in ODD_NAMES:
+            for kind in ("alias", "adhoc"):
+                if kind == "alias":
+                    define = ["-a", "%s=alias_body" % name]
+                    cat = "Alias"
+                else:
+                    p = os.path.join(root, "bin", name + ".sh")
+                    try:
+                        with open(p, "w") as fh:
+                            fh.write("#!/bin/sh\nprintf adhoc_out\n")
+                        os.chmod(p, 0o755)
+                    except OSError:
+                        continue
+                    define = ["-ah", "%s=%s" % (name, p)]
+                    cat = "AdHoc"
+                res, _cap = run_main(define + ["--list-tags"], root)
+                chk.count(("odd-name", kind, name))
+                case = {"tie": "odd user-defined names", "kind": kind, "name": name, "cli": ["tempren"] + define}
+                if res.status == 2:
+                    out["refused_at_definition"] += 1
+                    continue
+                listed = any(t == name for _c, t, _d in parse_listing(res.stdout))
+                for tpl in ("%%%s.%s()" % (cat, name), "%%%s()" % name):
+                    r2, _ = run_main(define + ["-dr", "--", tpl + "_%Core.Name()", "in"], root)
+                    if r2.status != 0:
+                        chk.oracle_fail("the %s %r is accepted on the command line (listed: %s) but %r is rejected with status %s: %s" % (
+                            kind, name, listed, tpl, r2.status, r2.stderr.strip()[-160:]), dict(case, template=tpl))
+                        break
+                else:
+                    out["reachable"] += 1
+        stats["odd_user_names"] = out
+
+
 def run_full_registry(chk, rng, stats, n_cli):
     """One configuration of ad-hoc tags / aliases on top of the built-in library."""
     cases, metas = [], []
@@ -596,8 +644,12 @@ def run_full_registry(chk, rng, stats, n_cli):
             queries.append((c + "x", "Name"))
         queries += [(None, "Nope"), (None, "name"), (None, "NAME"), ("Nope", "Nope")]
         for q in queries:
-            prefix = rng.choice(["", "", "x_", "%Core.Ext()-", "é "])
-            text, obs = observe_compiled(reg, ident, q, prefix)
+            # the placeholder at top level, nested in contexts, and left of a pipe (= context of the piped tag): the
+            # error has to be located at the offending part wherever it stands (n_before: tags resolved before it)
+            prefix, suffix, nb = rng.choice([("", "()", 0), ("", "()", 0), ("x_", "()", 0), ("%Core.Ext()-", "()", 1), ("é ", "()", 0),
+                                             ("%Text.Upper(){", "()}", 1), ("%Text.Upper(){a%Text.Lower(){", "()}b}", 2),
+                                             ("", "()|%Text.Upper()", 1), ("ab%Text.Lower(){", "()|%Text.Upper()}", 2)])
+            text, obs = observe_compiled(reg, ident, q, prefix, suffix, n_before=nb)
             col = len(prefix) + 1
             case1 = dict(cfg, query=list(q), template=text, observed=obs,
                          cli=["tempren"] + argv0 + ["-dr", text, "in"])
@@ -712,6 +764,7 @@ def run(chk):
         cases.append(c)
         metas.append(m)
 
+    odd_user_names(chk, stats)
     for i in range(n_full):
         c2, m2 = run_full_registry(chk, rng, stats, n_cli)
         cases += c2
